@@ -15,6 +15,10 @@ pub fn run(key: &str, a: &[String]) -> String {
                 .build();
             format!("{}", c.primary_epoch_reward(u(&a[2])).as_u64())
         }
+        "freezer_k1" => crate::freezer::k1(a),
+        "freezer_k5" => crate::freezer::k5(a),
+        "freezer_k2" => crate::freezer::k2(a),
+        "freezer_k3" => crate::freezer::k3(a),
         _ => panic!("unknown key {key}"),
     }
 }
